@@ -959,7 +959,7 @@ func litTypeName(info *types.Info, lit *ast.CompositeLit) (string, string) {
 		t = pt.Elem()
 	}
 	if n, ok := t.(*types.Named); ok && n.Obj().Pkg() != nil {
-		return n.Obj().Pkg().Name(), n.Obj().Name()
+		return n.Obj().Pkg().Name(), typeDisplay(n.Obj())
 	}
 	return "", ""
 }
